@@ -14,7 +14,8 @@ Tier-A extractor for C12 (purity): regenerates *data* from /repo's current AST.
   rngSites     every call that draws from / re-seeds a random generator: `np.random.<f>(...)`, `numpy.random...`, `random.<f>(...)`,
                `<x>.rvs(...)`, `default_rng` / `RandomState` / `Generator` constructions (file, function, callee text, occurrence)
   globalState  every `global` / `nonlocal` statement, every decorator whose name contains "cache", every assignment
-               to an attribute of `cls` / of a class name (state that survives a call outside the instance)
+               to an attribute of `cls` / of a class name (state that survives a call outside the instance), every
+               Pool / Process / Executor constructed with more than the worker count (initializer, initargs, target ...)
 
 A site is identified line-independently: (file, enclosing function `Class.method[.inner]`, base variable of the target,
 kind, key = normalised text of the *target* / call, occurrence number of this key inside the function).  The full
@@ -223,9 +224,21 @@ class Scan(ast.NodeVisitor):
         if hit:
             self.rngs.append((self.file, self.fn(), ftxt))
 
+    def pool_site(self, node):
+        """a worker pool / process / executor constructed with an initializer (or a target) runs extra code in the workers:
+        state outside the instance that the call depends on"""
+        ftxt = ast.unparse(node.func)
+        last = ftxt.split(".")[-1]
+        if last in ("Pool", "ThreadPool", "ProcessPoolExecutor", "ThreadPoolExecutor", "Process", "Thread"):
+            kws = sorted(kw.arg or "**" for kw in node.keywords)
+            extra = [k for k in kws if k not in ("processes", "max_workers")]
+            if extra or len(node.args) > 1:
+                self.globs.append((self.file, self.fn(), "poolWithInitializer", f"{ftxt}({', '.join(kws)}; {len(node.args)} positional)"))
+
     def visit_Call(self, node):
         self.call_args(node)
         self.rng_site(node)
+        self.pool_site(node)
         f = node.func
         ftxt = ast.unparse(f)
         txt = ast.unparse(node)
